@@ -3,7 +3,7 @@
 (== < >) and constants at LEB128 boundaries; many functions per module, 0-8 parameters of mixed type,
 void and non-void results.  A second family deliberately steps outside the subset (locals, stores,
 branches, loops, casts, calls, vectors) — those must be refused or still agree with the VM."""
-from ..lang import (INT, FLOAT, VOID, IntLit, FloatLit, Var, Bin, Assign, Call, Decl, ExprStmt, Block, If, While, Return,
+from ..lang import (INT, FLOAT, UINT, VOID, IntLit, FloatLit, Var, Bin, Assign, Call, Decl, ExprStmt, Block, If, While, Return,
                     Func, Module)
 
 BOUNDARY_INTS = sorted({s * (v + d) for k in range(1, 5) for v in (1 << (7 * k - 1), 1 << (7 * k)) for d in (-1, 0, 1) for s in (1, -1)} |
@@ -21,19 +21,31 @@ class WasmGen:
     def int_lit(self):
         rng = self.rng
         if rng.random() < self.boundary_bias:
+            if rng.random() < 0.08:
+                # literals that do not fit a signed 32-bit immediate: must be refused or still give a valid module
+                return IntLit(rng.choice([2147483648, 4294967295, 4000000000, 4294967296, -2147483649, 1 << 40]))
             return IntLit(rng.choice(BOUNDARY_INTS))
         return IntLit(rng.choice([0, 1, 2, 3, 5, 7, 10, 100, -1, -3, 1000]))
 
     def expr(self, t, params, depth):
         rng = self.rng
         vs = [n for ty, n in params if ty == t]
+        if t == UINT:
+            # unsigned values exist only as parameters (there is no unsigned literal); the result of an
+            # unsigned comparison is an int
+            if vs and (depth >= self.max_depth or rng.random() < 0.4):
+                return Var(rng.choice(vs), UINT)
+            if not vs:
+                raise ValueError("no uint parameter")
+            op = rng.choice(["+", "*", "/", "+"])
+            return Bin(op, self.expr(UINT, params, depth + 1), self.expr(UINT, params, depth + 1) if op != "/" else Var(rng.choice(vs), UINT), UINT)
         if depth >= self.max_depth or rng.random() < 0.25:
             if vs and rng.random() < 0.65:
                 return Var(rng.choice(vs), t)
             return self.int_lit() if t == INT else FloatLit(rng.choice(FLOAT_CONSTS))
         r = rng.random()
         if t == INT and r < 0.25:
-            ot = rng.choice([INT, FLOAT])
+            ot = rng.choice([INT, FLOAT] + ([UINT, UINT] if any(ty == UINT for ty, _ in params) else []))
             return Bin(rng.choice(["==", "<", ">"]), self.expr(ot, params, depth + 1), self.expr(ot, params, depth + 1), INT)
         op = rng.choice(["+", "-", "*", "+", "-", "*", "/"])
         l = self.expr(t, params, depth + 1)
@@ -48,12 +60,12 @@ class WasmGen:
         funcs = []
         for i in range(self.nfuncs):
             np_ = rng.randint(0, 8) if rng.random() < 0.3 else rng.randint(0, 3)
-            params = [(rng.choice([INT, FLOAT]), "p%d" % k) for k in range(np_)]
+            params = [(rng.choice([INT, FLOAT, INT, FLOAT, UINT]), "p%d" % k) for k in range(np_)]
             r = rng.random()
             if r < 0.1:
                 funcs.append(Func("f%d" % i, params, VOID, Block([Return(None)]), True))
                 continue
-            t = rng.choice([INT, FLOAT])
+            t = rng.choice([INT, FLOAT] + ([UINT] if any(ty == UINT for ty, _ in params) else []))
             funcs.append(Func("f%d" % i, params, t, Block([Return(self.expr(t, params, 0))]), True))
         return Module(funcs=funcs)
 
@@ -88,11 +100,12 @@ def outside_subset(rng):
 
 
 INT_INPUTS = [0, 1, -1, 2, 7, 63, 64, 65, -64, -65, 127, 128, 1000, -1000, 16383, 16384, 2097151, 2097152, 2147483647, -2147483648, 12345, -77]
+UINT_INPUTS = [0, 1, 2, 5, 100, 65535, 2147483647, 2147483648, 3000000000, 4294967295, 4294967294, 2147483649]
 FLOAT_INPUTS = [0.0, 1.0, -1.0, 0.5, 2.5, -3.75, 100.0, 1024.0, 1e6, -1e6, 0.015625, 3.0]
 
 
 def inputs_for(rng, fn, k):
     out = []
     for _ in range(k):
-        out.append({n: (rng.choice(INT_INPUTS) if t == INT else rng.choice(FLOAT_INPUTS)) for t, n in fn.params})
+        out.append({n: (rng.choice(INT_INPUTS) if t == INT else (rng.choice(UINT_INPUTS) if t == UINT else rng.choice(FLOAT_INPUTS))) for t, n in fn.params})
     return out
